@@ -10,6 +10,10 @@ CHECKS = [
         "An exhaustive access matrix (5 session states x 12 object classes x token/session x {live handle used through the other token, stale handle after logout} x 17 entry points accepting an object handle) plus thousands of Hypothesis-generated histories over two tokens with same-token and cross-token probes; after every login-state change the complete object view of the sessions is compared with a reference model; creations are judged by their read-back effect. Held on everything explored; the matrix is enumerated completely.",
         "API-level judgement only: denials that also follow from the missing token key (defence in depth inside single entry points) cannot be separated from the access rule; trusts the reference model in py/vlib/objworld.py.",
         "model-based stateful PBT (Hypothesis) + exhaustive access-matrix enumeration", "DESIGN.md 2/C01"),
+    chk("C04", "exploration",
+        "Generated histories of C_SetPIN / C_InitPIN / C_InitToken / C_Login with PINs drawn from all byte strings of length 0..258 and 13 near-miss variants of the current PINs, interleaved with re-initialisations and process restarts; login must succeed IFF the PIN equals the model's; after every step both roles, former PINs, the private object and the other token are re-verified.",
+        "Wrong-PIN acceptance with probability 2^-32 (blob magic check) is ignored; file backend.",
+        "model-based stateful PBT (Hypothesis) with near-miss input construction and restart injection", "DESIGN.md 2/C04"),
     chk("C09", "exploration",
         "Generated histories biased to failing object-management calls (templates corrupted at a generated position, wrong session state, dead handles) on token and session objects; after every failing call the complete census through two sessions per token is compared with the state committed by the last successful call, and again at the end of the history.",
         "In-memory and API-visible state; the token directory / fault-injection legs are reported separately inside the evidence when present.",
